@@ -320,6 +320,8 @@ def c20(res, rng, ctx):
         P = rng.normal(size=(m, 3))
         P2 = rng.normal(size=(m, 3))
         Pi = rng.integers(-4, 5, size=(m, 3)).astype(float)
+        if k % 2 == 1:
+            Pi = rng.integers(-90000, 90001, size=(m, 3)).astype(float)     # e.g. mesh coordinates in metres: squares overflow int32
         Pi[np.all(Pi == 0, axis=1)] = [1.0, 0.0, 0.0]
         for nm, pts, pts2 in (("float", P, P2), ("integral", Pi, P)):
             x, y, z = (np.ascontiguousarray(pts[:, i]) for i in range(3))
@@ -353,3 +355,247 @@ def c20(res, rng, ctx):
                              (np.ascontiguousarray(d[:, 0]), np.ascontiguousarray(d[:, 1]), np.ascontiguousarray(d[:, 2])),
                              other_args=(np.ascontiguousarray(d2[:, 0]), np.ascontiguousarray(d2[:, 1]), np.ascontiguousarray(d2[:, 2])),
                              rtol=1e-9, atol=1e-9, f32_rtol=1e-3, dtypes=False)
+            # axial data given with the flag spelled as a numpy bool or an int (truthy): the density is still independent of the sign
+            # of each datum (the property's clause; equality with the literal `True` is NOT demanded: `_kamb_radius` distinguishes them)
+            sg = rng.choice([-1.0, 1.0], size=d.shape[0])
+            for nm_, flag in (("True", True), ("np.True_", np.True_), ("1", 1)):
+                o1 = S.point_density(d[:, 0], d[:, 1], d[:, 2], gridsteps=gs, kernel=kern, axial=flag, **kw)
+                o2 = S.point_density(sg * d[:, 0], sg * d[:, 1], sg * d[:, 2], gridsteps=gs, kernel=kern, axial=flag, **kw)
+                res.evaluations += 2
+                res.count("apirobust:point_density:axial_flag=" + nm_)
+                ok, why = R.same(o1, o2, 1e-9, 1e-9)
+                if not ok:
+                    res.violation(f"C20:api:point_density[{kern}]:axial_sign_dependence:flag={nm_}", f"axial={nm_}: the density changes when the sign of "
+                                  f"some data is flipped: {why}", {"kernel": kern})
+                    break
+
+
+def c15_sizes(res, rng, ctx):
+    """sample counts at and around 2**16 blocks: every output pair is an input pair, exactly as an independent emulation predicts"""
+    from pydrex import stats as S
+
+    for ns in ([65535, 65536, 65537] if not ctx["thorough"] else [65535, 65536, 65537, 131072, 196608, 10**6]):
+        Mg = int(rng.integers(3, 9))
+        O = np.ascontiguousarray(_rot(rng, Mg).reshape(1, Mg, 3, 3))
+        F = rng.dirichlet(np.ones(Mg), size=1)
+        seed = int(rng.integers(0, 2**31))
+        o, f = S.resample_orientations(O, F, n_samples=ns, seed=seed)
+        order = np.argsort(F[0], kind="stable")
+        cum = F[0][order].cumsum()
+        cum[-1] = 1.0
+        idx = np.searchsorted(cum, np.random.default_rng(seed).random(ns))
+        res.evaluations += 1
+        res.count(f"apirobust:resample_orientations:n_samples={ns}")
+        if o.shape != (1, ns, 3, 3) or f.shape != (1, ns) or not np.array_equal(f[0], F[0][order][idx]) or not np.array_equal(o[0], O[0][order][idx]):
+            bad = int(np.argmax(f[0] != F[0][order][idx])) if f.shape == (1, ns) else -1
+            res.violation("C15:api:resample_orientations:sample_count_threshold", f"n_samples={ns}: output differs from the volume-weighted draw "
+                          f"(first bad sample index {bad})", {"n_samples": ns, "fractions": F.tolist(), "seed": seed})
+
+
+# ------------------------------------------------------------------ C18
+def c18(res, rng, ctx):
+    from pydrex import pathlines as P
+    from pydrex import utils as U
+    from pydrex import velocity as V
+
+    for k in range(3 if not ctx["thorough"] else 10):
+        L = rng.normal(size=(3, 3))
+        L2 = 10.0 * rng.normal(size=(3, 3))
+        Li = rng.integers(-3, 4, size=(3, 3)).astype(float)
+        dt = float(rng.choice([0.5, -0.25, 2.0]))
+        R.check_function(res, "C18", "strain_increment", lambda l, dt=dt: U.strain_increment(dt, np.asarray(l, float)), (L,), other_args=(L2,),
+                         rtol=1e-12, atol=1e-12)
+        R.check_function(res, "C18", "strain_increment[int L]", lambda l, dt=dt: U.strain_increment(dt, np.asarray(l, float)), (Li,), rtol=1e-12, atol=1e-12)
+        # flows: positions in other representations
+        x = rng.uniform(-0.9, 0.9, size=3)
+        x2 = rng.uniform(-0.9, 0.9, size=3)
+        for nm, (u, g) in (("simple_shear", V.simple_shear_2d("X", "Z", 1.5)), ("cell", V.cell_2d("X", "Z", 1.0)), ("corner", V.corner_2d("X", "Z", 1.0))):
+            xx = x.copy()
+            if nm == "corner":
+                xx[2] = -abs(xx[2]) - 0.1
+            R.check_function(res, "C18", f"{nm}:velocity", lambda p, u=u: u(np.nan, np.asarray(p, float)), (xx,), other_args=(x2 if nm != "corner" else xx * 0.5,),
+                             skip_variants=("nested_list",), f32_rtol=1e-5)
+            R.check_function(res, "C18", f"{nm}:gradient", lambda p, g=g: g(np.nan, np.asarray(p, float)), (xx,), other_args=(x2 if nm != "corner" else xx * 0.5,),
+                             skip_variants=("nested_list",), f32_rtol=1e-5)
+    # pathlines: a default call gives the same pathline before and after a call with solver keyword arguments, and after an aborted call
+    u, g = V.cell_2d("X", "Z", 1.0)
+    lo, hi = np.array([-1.0, -1.0, -1.0]), np.array([1.0, 1.0, 1.0])
+
+    def path(p, **kw):
+        ts, sol = P.get_pathline(np.array(p, float), u, g, lo, hi, 2.0, regular_steps=10, **kw)
+        return np.asarray(ts), np.asarray([sol(t) for t in ts])
+
+    cands = [[0.3, 0.0, -0.4], [-0.2, 0.0, 0.5], [0.5, 0.0, 0.2], [0.1, 0.0, 0.7], [-0.6, 0.0, -0.3]]
+    done = 0
+    for p in cands:
+        try:
+            first = path(p)
+        except ValueError:
+            continue   # the stateful terminal event sometimes fails in the cell flow (known finding); pick another point
+        try:
+            path(p, rtol=0.2, atol=0.05)
+        except Exception:  # noqa: BLE001
+            pass
+
+        class Boom(Exception):
+            pass
+
+        calls = {"n": 0}
+
+        def u_fail(t, x_):
+            calls["n"] += 1
+            if calls["n"] > 60:
+                raise Boom()
+            return u(t, x_)
+
+        try:
+            P.get_pathline(np.array(p, float), u_fail, g, lo, hi, 2.0)
+        except Boom:
+            pass
+        except Exception:  # noqa: BLE001
+            pass
+        try:
+            again = path(p)
+        except Exception as e:  # noqa: BLE001
+            res.violation("C18:api:get_pathline:call_history:raises", f"default get_pathline raised {type(e).__name__} after calls with solver options / "
+                          "an aborted call, although the same call succeeded before", {"final_location": p})
+            done += 1
+            continue
+        res.evaluations += 4
+        res.count("apirobust:get_pathline:default_call_repeated_after_other_calls")
+        ok, why = R.same(first, again, 0, 0)
+        if not ok:
+            res.violation("C18:api:get_pathline:call_history_dependent", "a default get_pathline call gives another pathline after a call with solver "
+                          f"keyword arguments and an aborted call: {why}", {"final_location": p})
+        done += 1
+        if done >= (2 if not ctx["thorough"] else 5):
+            break
+
+
+# ------------------------------------------------------------------ C19
+def c19(res, rng, ctx):
+    import os
+    import tempfile
+
+    from pydrex import core
+    from pydrex import io as IO
+
+    defaults = core.DefaultParams().as_dict()
+    with tempfile.TemporaryDirectory(prefix="pydrex_verif_c19_") as td:
+        body = '[input]\ntimestep = 1.0\npaths = []\n'
+        a = os.path.join(td, "a")
+        b = os.path.join(td, "b")
+        os.makedirs(a)
+        os.makedirs(b)
+        with open(os.path.join(a, "config.toml"), "w") as fh:
+            fh.write('name = "in_a"\n' + body)
+        with open(os.path.join(b, "config.toml"), "w") as fh:
+            fh.write('name = "in_b"\n[parameters]\ngbm_mobility = 10\n' + body)
+        cwd = os.getcwd()
+        try:
+            # (1) call history: the dictionaries returned by one parse are the caller's; editing them must not change later parses
+            c1 = IO.parse_config(os.path.join(a, "config.toml"))
+            for key in list(c1["parameters"]):
+                c1["parameters"][key] = "poisoned"
+            c1["parameters"]["phase_fractions"] = [0.5, 0.1]
+            try:
+                c2 = IO.parse_config(os.path.join(a, "config.toml"))
+            except Exception as e:  # noqa: BLE001
+                res.violation("C19:api:parse_config:call_history:raises", f"a valid file is rejected ({type(e).__name__}) after the caller edited the "
+                              "dictionary returned by an earlier parse", {})
+                c2 = None
+            res.evaluations += 2
+            res.count("apirobust:parse_config:returned_dict_edited_then_reparsed")
+            if c2 is not None:
+                for key, val in defaults.items():
+                    got = c2["parameters"].get(key)
+                    if key in ("phase_assemblage", "initial_olivine_fabric", "disl_coefficients"):
+                        continue
+                    if got != val:
+                        res.violation("C19:api:parse_config:call_history_dependent", f"omitted parameter '{key}' parsed as {got!r} instead of its documented "
+                                      f"default {val!r} after the caller edited an earlier result", {"key": key})
+                        break
+            # (2) environment: a relative path is resolved against the CURRENT working directory
+            for d, want in ((a, "in_a"), (b, "in_b"), (a, "in_a")):
+                os.chdir(d)
+                try:
+                    c = IO.parse_config("config.toml")
+                    got = c.get("name")
+                except Exception as e:  # noqa: BLE001
+                    got = f"raised {type(e).__name__}"
+                res.evaluations += 1
+                res.count("apirobust:parse_config:relative_path_after_chdir")
+                if got != want:
+                    res.violation("C19:api:parse_config:relative_path_wrong_directory", f"parse_config('config.toml') in {os.path.basename(d)} returned "
+                                  f"{got!r} instead of the file of the current directory ({want!r})", {})
+                    break
+        finally:
+            os.chdir(cwd)
+
+
+# ------------------------------------------------------------------ C16
+def c16(res, rng, ctx):
+    import io as _io
+    import os
+    import tempfile
+
+    from pydrex import exceptions as E
+    from pydrex import io as IO
+
+    schema = {"delimiter": ",", "missing": "-", "fields": [
+        {"name": "a", "type": "float", "fill": "NaN"}, {"name": "b", "type": "complex", "fill": "NaN"},
+        {"name": "c", "type": "integer", "fill": "0"}, {"name": "d", "type": "string", "fill": "z"}, {"name": "e", "type": "boolean"}]}
+    with tempfile.TemporaryDirectory(prefix="pydrex_verif_c16_") as td:
+        # (1) columns given as numpy arrays (numpy scalars as cells) round-trip like lists of Python scalars
+        n = 7
+        fa = rng.normal(size=n)
+        cb = rng.normal(size=n) + 1j * rng.normal(size=n)
+        ic = rng.integers(-50, 50, size=n)
+        sd = [f"s{i}" for i in range(n)]
+        be = (rng.random(n) < 0.5)
+        f1, f2 = os.path.join(td, "np.scsv"), os.path.join(td, "py.scsv")
+        try:
+            IO.save_scsv(f1, schema, [fa, cb, ic, np.array(sd), be])
+            IO.save_scsv(f2, schema, [fa.tolist(), cb.tolist(), ic.tolist(), sd, be.tolist()])
+            r1, r2 = IO.read_scsv(f1), IO.read_scsv(f2)
+            res.evaluations += 2
+            res.count("apirobust:save_scsv:numpy_array_columns")
+            if open(f1).read() != open(f2).read() or tuple(r1) != tuple(r2):
+                res.violation("C16:api:save_scsv:numpy_columns:differs", "columns given as numpy arrays are written/read differently from the same "
+                              "values given as Python lists", {"first_lines": open(f1).read().splitlines()[-3:]})
+            elif list(r1.a) != fa.tolist() or list(r1.b) != cb.tolist() or list(r1.c) != ic.tolist():
+                res.violation("C16:api:save_scsv:numpy_columns:roundtrip", "numpy-array columns do not round-trip", {})
+        except Exception as e:  # noqa: BLE001
+            res.violation(f"C16:api:save_scsv:numpy_columns:raises:{type(e).__name__}", f"round trip of numpy-array columns raised {type(e).__name__}: {e}", {})
+        # (2) the same path written, read, overwritten and read again (small and large tables)
+        for rows in ((5, 9), (2500, 2100)) if not ctx["thorough"] else ((5, 9), (2048, 2049), (5000, 300), (2500, 2100)):
+            fn = os.path.join(td, f"same_{rows[0]}.scsv")
+            s2 = {"delimiter": ",", "missing": "-", "fields": [{"name": "x", "type": "integer", "fill": "999999"}]}
+            IO.save_scsv(fn, s2, [list(range(rows[0]))])
+            first = IO.read_scsv(fn)
+            IO.save_scsv(fn, s2, [list(range(100, 100 + rows[1]))])
+            second = IO.read_scsv(fn)
+            res.evaluations += 2
+            res.count("apirobust:read_scsv:same_path_overwritten")
+            if len(first.x) != rows[0] or list(second.x) != list(range(100, 100 + rows[1])):
+                res.violation("C16:api:read_scsv:stale_after_overwrite", f"a file of {rows[0]} rows overwritten with {rows[1]} rows is read back with "
+                              f"{len(second.x)} rows starting at {second.x[0]}", {"rows": rows})
+        # (3) the public header writer refuses invalid schemas itself
+        bad = [("no_fields", {"delimiter": ",", "missing": "-", "fields": []}),
+               ("non_identifier", {"delimiter": ",", "missing": "-", "fields": [{"name": "not valid", "type": "string"}]}),
+               ("numeric_without_fill", {"delimiter": ",", "missing": "-", "fields": [{"name": "a", "type": "float"}]}),
+               ("delimiter_in_missing", {"delimiter": ",", "missing": "a,b", "fields": [{"name": "a", "type": "string"}]}),
+               ("missing_key", {"delimiter": ",", "fields": [{"name": "a", "type": "string"}]})]
+        for nm, sch in bad:
+            buf = _io.StringIO()
+            try:
+                IO.write_scsv_header(buf, sch, comments=["c"])
+                out = "returned"
+            except E.SCSVError:
+                out = "SCSVError"
+            except Exception as e:  # noqa: BLE001
+                out = type(e).__name__
+            res.evaluations += 1
+            res.count("apirobust:write_scsv_header:invalid_schema")
+            if out != "SCSVError":
+                res.violation(f"C16:api:write_scsv_header:{nm}", f"write_scsv_header with an invalid schema ({nm}): {out} instead of SCSVError", {"schema": sch})
